@@ -345,20 +345,42 @@ def search_jobs(tier):
         for nd, nos in ((2, 0), (0, 0), (2, 1)):
             if tier == "quick" and (nd, nos) != (2, 0) and ni != 0:
                 continue
-            J.append(dict(name="search_start_%s_nd%d_nosearch%d" % (nm.replace(".", "dot"), nd, nos), harness="search_oom.c",
-                          defines=["-DNAME_IDX=%d" % ni, "-DND=%d" % nd, "-DNOSEARCH=%d" % nos], real=real,
-                          support=["vp_rt.c", "valloc.c", "memloops.c", "lock_ghost.c", "dnsrec_abs.c"], unwind=26,
-                          witnesses=["end", FAILW, OKW],
-                          bound="ares_search_dnsrec from scratch for name '%s', %d search domains of {x, y.z}, ndots 0..2, "
-                                "NOSEARCH=%d, with any one REAL allocation (position 0..24, solver-chosen) failing; "
-                                "ares_send_nolock = contract stub of C01 (sync failure any status / sync answer / pending)" %
-                                (nm, nd, nos)))
+            for lo, hi in ((0, 7), (8, 15), (16, 24)):
+                J.append(dict(name="search_start_%s_nd%d_nosearch%d_f%d_%d" % (nm.replace(".", "dot"), nd, nos, lo, hi),
+                              harness="search_oom.c",
+                              defines=["-DNAME_IDX=%d" % ni, "-DND=%d" % nd, "-DNOSEARCH=%d" % nos, "-DFLO=%d" % lo, "-DFHI=%d" % hi],
+                              real=real, support=["vp_rt.c", "valloc.c", "memloops.c", "lock_ghost.c", "dnsrec_abs.c"], unwind=26,
+                              replace=["ares_dns_record_query_set_name", "ares_dns_record_duplicate"],
+                              replace_with=["c14_absrec_faithful.c"],
+                              witnesses=["end"] + ([OKW, FAILW] if lo == 0 else []),  # later slices: positions may exceed the shape's allocation count
+                              bound="ares_search_dnsrec from scratch for name '%s', %d search domains of {x, y.z}, ndots 0..2, "
+                                    "NOSEARCH=%d, with any one REAL allocation (position %d..%d of at most 24, solver-chosen, 0 = "
+                                    "none) failing; ares_send_nolock = contract stub of C01 (sync failure any status / sync "
+                                    "answer / pending)" % (nm, nd, nos, lo, hi)))
+    return J
+
+
+# ---------------------------------------------------------------------------------------------- 5. qcache
+def qcache_jobs(tier):
+    c08 = _load("C08/jobs.py", "c08_jobs_for_c14")
+    J = []
+    for part, nm, slices in ((0, "insert", ((0, 1), (2, 3), (4, 5), (6, 8))), (1, "fetch", ((0, 3),))):
+        for lo, hi in slices:
+            J.append(dict(name="qcache_%s_f%d_%d" % (nm, lo, hi), harness="qcache_oom.c",
+                          defines=["-DPART=%d" % part, "-DFLO=%d" % lo, "-DFHI=%d" % hi, "-DNPOS=%d" % (8 if part == 0 else 3)],
+                          real=c08.KEYREAL, support=["vp_rt.c", "valloc.c", "memloops.c", "slist_ref.c", "c14_strvp_ref.c"],
+                          unwind=24, unwindset=c08.uws(2), witnesses=["end"] + ([OKW] if lo == 0 else []) + ([FAILW] if lo < 6 else []),
+                          **({"kf_group": "qcache_insert_keyfail"} if part == 0 and lo <= 3 and hi >= 2 else {}),
+                          bound="fresh cache (any max_ttl >= 1), NOERROR response with one A answer (TTL 1..100000) to the request "
+                                "A IN a.b; ares_qcache_insert then ares_qcache_fetch, the %s with any one allocation (position "
+                                "%d..%d, solver-chosen, 0 = none) failing; then ares_qcache_destroy" % (nm, lo, hi)))
     return J
 
 
 def jobs(tier, seed):
     J = []
     J += machine_reuse_jobs(tier)
+    J += qcache_jobs(tier)
     J += search_jobs(tier)
     J += buf_jobs(tier)
     J += codec_jobs(tier)
